@@ -166,6 +166,29 @@ def finish(run, module_doc, extra_cov=None):
     return 0
 
 
+FIXTURE = os.path.join(VERIF, "fixtures", "positive")
+
+
+def fixture_selftest(run, mod):
+    """zero-count rules must report their deliberate instance in the positive fixture on every run"""
+    expect = getattr(mod, "FIXTURE_EXPECT", None)
+    if not expect or os.environ.get("VERIF_NO_FIXTURE") == "1":
+        return
+    fr = Run(run.pid, run.tier, run.seed, "debug", repo=FIXTURE)
+    fn = getattr(mod, "fixture", None) or mod.run
+    try:
+        fn(fr)
+    except Exception as e:  # anchors of svgbob are naturally missing in the fixture
+        fr.note("fixture run stopped: %r" % (e,))
+    keys = [v["key"] for v in fr.violations]
+    missing = [k for k in expect if not any(k in key for key in keys)]
+    if missing:
+        raise SelfTestFailed("positive fixture: deliberate instance(s) %s not reported (reported: %s)" % (missing, keys[:12]))
+    run.ok("selftest", "positive fixture: all %d deliberate zero-count instances are reported" % len(expect), "fixtures/positive",
+           ", ".join(expect), nontrivial=True)
+    run.record("positive_fixture", {"expected": expect, "reported": len(keys)})
+
+
 def run_property(pid, tier="quick", seed=0):
     mod = importlib.import_module("rules.props.%s" % pid.lower())
     configs = ["debug"] if tier == "quick" else ["debug", "release"]
@@ -173,6 +196,7 @@ def run_property(pid, tier="quick", seed=0):
     try:
         run = Run(pid, tier, seed, "debug")
         mod.run(run)
+        fixture_selftest(run, mod)
         if tier == "thorough":
             # second MIR configuration (what release ships): flow rules again
             if hasattr(mod, "run_flow"):
@@ -186,6 +210,20 @@ def run_property(pid, tier="quick", seed=0):
                         run.violations.append(v)
             if hasattr(mod, "thorough"):
                 mod.thorough(run)
+            # checker-sensitivity corpus: every mutant of this property must be reported on a scratch copy
+            if os.environ.get("VERIF_NO_MUTANTS") != "1" and factsdb.REPO == "/repo":
+                import subprocess
+                r = subprocess.run([os.path.join(VERIF, "tools", "run_mutants.py"), pid], capture_output=True, text=True,
+                                   env=dict(os.environ, VERIF_NO_MUTANTS="1", VERIF_TIER="quick"))
+                lines = [l for l in r.stdout.splitlines() if l.startswith(("CAUGHT", "MISSED", "SKIP"))]
+                caught = [l.split()[1] for l in lines if l.startswith("CAUGHT")]
+                missed = [l.split()[1] for l in lines if l.startswith("MISSED")]
+                skipped = [l.split()[1] for l in lines if l.startswith("SKIP")]
+                run.record("mutant_corpus", {"caught": caught, "missed": missed, "skipped_not_applicable": skipped})
+                for m in caught:
+                    run.ok("selftest", "mutant %s is reported" % m, m, "applied to a scratch copy of /repo; ./check %s exits 1 naming the mutated instance" % pid)
+                if missed:
+                    raise SelfTestFailed("mutant(s) not reported by %s: %s" % (pid, ", ".join(missed)))
     except factsdb.NoVerdict as e:
         print("NO-VERDICT property=%s %s" % (pid, e))
         return 2
